@@ -177,6 +177,18 @@ func (e *Engine) assignsKeys(con *Contract, fd *ast.FuncDecl) *modset {
 	}
 	for _, cl := range con.clauses("assigns") {
 		for _, ex := range cl.Assigns {
+			switch g := ex.(type) {
+			case *ast.CallExpr:
+				if id, ok := g.Fun.(*ast.Ident); ok && e.isGhost(id.Name) {
+					ms.fields[ghostKey(id.Name)] = nil
+				}
+				continue
+			case *ast.Ident:
+				if e.isGhost(g.Name) {
+					ms.fields[ghostKey(g.Name)] = nil
+				}
+				continue
+			}
 			sel, ok := ex.(*ast.SelectorExpr)
 			if !ok {
 				continue
@@ -294,6 +306,15 @@ func (e *Engine) recordCall(call *ast.CallExpr, ms *modset) {
 				}
 				for _, k := range cands {
 					if con := e.spec.Contracts[k]; con != nil {
+						for _, cl := range con.clauses("assigns") {
+							for _, ex := range cl.Assigns {
+								if g, ok := ex.(*ast.CallExpr); ok {
+									if gid, ok := g.Fun.(*ast.Ident); ok && e.isGhost(gid.Name) {
+										ms.fields[ghostKey(gid.Name)] = nil
+									}
+								}
+							}
+						}
 						if len(con.clauses("updates")) > 0 {
 							for _, a := range call.Args {
 								e.recordWrite(a, ms, false)
